@@ -55,7 +55,50 @@ def run(ck):
                         case, names, want)
                 break
     ck.count("sessions", len(ss), nontriv, sample={"ops": [[sessions.FILES[f], v.k] for f, v in ss[len(ss) // 2][1]]})
+    spelled_includes(ck)
     return ck.finish(extra_cov={"traces_validated_against_impl": len(ss)}, **FINISH)
+
+
+def spelled_includes(ck):
+    """an open document reached through an include that spells its path differently (`./b.td`, `sub/../b.td`) is still that open
+    document: the editor's text is analysed, whatever the order of the events, and the document's own answers stay the editor's"""
+    ed, disk = "\n\nclass InEditor;\n", "class OnDisk;\n"
+    cases = []
+    for sp in ("b.td", "./b.td", "sub/../b.td", "sub/./../b.td"):
+        a = 'include "%s"\ndef d : InEditor;\n' % sp
+        cases.append((sp + ":b-then-a", {"b.td": disk, "sub/keep.td": ""}, [["open", "b.td", ed], ["open", "a.td", a], ["idle"]], "a.td"))
+        cases.append((sp + ":a-b-then-a-again", {"b.td": disk, "sub/keep.td": ""}, [["open", "a.td", a], ["open", "b.td", ed], ["change", "a.td", a + "\n"], ["idle"]], "a.td"))
+        cases.append((sp + ":a-then-b-changed-twice", {"b.td": disk, "sub/keep.td": ""},
+                      [["open", "b.td", disk], ["open", "a.td", a], ["change", "b.td", "class Mid;\n"], ["change", "b.td", ed], ["change", "a.td", a], ["idle"]], "a.td"))
+    lines = []
+    for i, (name, dk, script, root) in enumerate(cases):
+        script = script + [["req", 1, "foldingRange", "b.td"], ["req", 2, "definition", "a.td", 1, 9], ["req", 3, "documentSymbol", "a.td"]]
+        lines.append("srv " + json.dumps({"dir": "%s/tmp/sp12_%d" % (core.BUILD, i), "disk": dk, "script": script, "timeout_ms": 8000}))
+    outs = core.impl(lines, timeout=120, jobs=4, tag="sp12")
+    for (name, dk, script, root), line, o in zip(cases, lines, outs):
+        case = {"cmd": line[:2500]}
+        try:
+            d = json.loads(o)
+        except Exception:
+            ck.fail(["C12", "spelled-include", name], "session aborts: %s" % o[:80], case, o[:200], "answers")
+            continue
+        resp = {m["id"]: m.get("result") for m in d["msgs"] if "id" in m and "method" not in m}
+        pubs = {}
+        for m in d["msgs"]:
+            if m.get("method") == "textDocument/publishDiagnostics":
+                pubs[m["params"]["uri"].rsplit("/", 1)[1]] = [x["message"] for x in m["params"]["diagnostics"]]
+        folds = [(f["startLine"], f["endLine"]) for f in (resp.get(1) or [])]
+        target = resp.get(2)
+        bad = None
+        if pubs.get("a.td"):
+            bad = "the including document is analysed against another text of the open document: %s" % pubs["a.td"][:2]
+        elif not (isinstance(target, dict) and target.get("uri", "").endswith("/b.td") and target["range"]["start"]["line"] == 2):
+            bad = "go-to-definition into the open document answers %s (the editor's text declares the class on line 2)" % json.dumps(target)[:120]
+        elif folds != [(2, 2)]:
+            bad = "the open document's own folding ranges are %s (the editor's text has one statement on line 2)" % folds
+        if bad:
+            ck.fail(["C12", "spelled-include", name], bad, case, json.dumps({"pubs": pubs, "definition": target, "folds": folds})[:400], "the editor's text of b.td everywhere")
+    ck.count("spelled_includes", len(cases), {c[0] for c in cases}, sample={"case": cases[2][0]})
 
 
 def replay(ck, path):
